@@ -136,3 +136,41 @@ func H_C03_Generations() {
 		})
 	})
 }
+
+// H_C03_WaitErrCancel: the predicate's error is returned unchanged also when the waiter's
+// context is cancelled at any moment, in particular while the predicate is being evaluated
+// or between that evaluation and Wait's return: once the predicate has returned its error,
+// Wait returns exactly that error; otherwise it returns Canceled only if cancelled.
+func H_C03_WaitErrCancel() {
+	var b broadcast.Broadcast
+	x := 0
+	myErr := errors.New("predicate error")
+	vrt.Go("waiter-err", func() {
+		ctx, cancel := context.WithCancel(context.Background())
+		cancelled := vrt.Bool("cancel")
+		if cancelled {
+			vrt.CancelAnytime(cancel)
+		}
+		predFailed := false
+		err := b.Wait(ctx, func(broadcast func(), getWaitCh func() <-chan struct{}) (bool, error) {
+			if x >= 1 {
+				predFailed = true
+				return false, myErr
+			}
+			return false, nil
+		})
+		if predFailed {
+			vrt.Cover("predicate-failed")
+			vrt.Assert(err == myErr, "wait-returns-predicate-error-despite-cancel")
+		} else {
+			vrt.Cover("cancelled-before-predicate-failed")
+			vrt.Assert(err == context.Canceled && cancelled, "wait-canceled-only-if-cancelled")
+		}
+	})
+	vrt.Go("setter", func() {
+		b.HoldLock(func(broadcast func(), getWaitCh func() <-chan struct{}) {
+			x++
+			broadcast()
+		})
+	})
+}
